@@ -59,7 +59,10 @@ Mag(name, d) == [name |-> name, d |-> d]
 DecMags == {Mag("0", U("0")), Mag("1", U("1")), Mag("9", U("9")), Mag("lead0", Zeros(24) \o U("1")), Mag("2^16-1", U("65535")), Mag("2^16", U("65536")),
             Mag("2^31-1", U("2147483647")), Mag("2^31", U("2147483648")), Mag("2^32-1", U("4294967295")), Mag("2^32", U("4294967296")),
             Mag("2^63-1", U("9223372036854775807")), Mag("2^63", U("9223372036854775808")), Mag("2^64", U("18446744073709551616")),
-            Mag("1e400", U("1") \o Zeros(400)), Mag("1e5000", U("1") \o Zeros(5000))}
+            Mag("1e400", U("1") \o Zeros(400)), Mag("1e5000", U("1") \o Zeros(5000)),
+            \* between what an implementation is willing to build (its program budget, a few 10^5) and what the host can allocate at
+            \* all (~10^9 .. 10^10 list entries): the window in which work or memory proportional to the COUNT is possible and hurts
+            Mag("budget+1", U("500001")), Mag("1e7", U("10000000")), Mag("1e8", U("100000000"))}
 HexMags == {Mag("0", U("0")), Mag("41", U("41")), Mag("2^16-1", U("FFFF")), Mag("2^16", U("10000")), Mag("maxcp", U("10FFFF")), Mag("maxcp+1", U("110000")),
             Mag("2^31-1", U("7FFFFFFF")), Mag("2^31", U("80000000")), Mag("2^32-1", U("FFFFFFFF")), Mag("2^32", U("100000000")),
             Mag("2^63-1", U("7FFFFFFFFFFFFFFF")), Mag("2^63", U("8000000000000000")), Mag("2^64", U("10000000000000000")),
@@ -78,6 +81,29 @@ NumForms == {
   NumForm("cp-class-u", "hex", "u", <<U("[\\u{"), U("}]")>>, "cpclass"),
   NumForm("hex4", "hex", "", <<U("\\u"), <<>> >>, "hex4"), NumForm("hex2", "hex", "", <<U("\\x"), <<>> >>, "hex2")}
 CountForms == {"count", "count-min", "count-max", "count-both", "count-nested"}
+\* The quantified ATOM (added after the fourth review).  A compiler treats a counted quantifier by the kind of its body - a single
+\* instruction (character, dot, class escape, class, negated class), a capturing / non-capturing group, a sequence, a backreference,
+\* an alternation - and by where the quantified term stands (the whole pattern; inside an alternative of a group with text after
+\* it).  Every atom kind x every count shape x every context x magnitudes: the light ones (the pattern must be accepted), the
+\* boundary of 16 bits and the window between the program budget and the host's memory (may be refused; bounded work AND memory).
+AtomSeq == << <<"dot", ".">>, <<"digit", "\\d">>, <<"class", "[a-c]">>, <<"negclass", "[^a]">>, <<"group", "(a)">>, <<"nc", "(?:a)">>,
+              <<"nc-two", "(?:ab)">>, <<"bref", "(a)\\1">>, <<"alt", "(?:a|b)">> >>
+CountShapeSeq == << <<"count", <<"{", "}">> >>, <<"count-min", <<"{", ",}">> >>, <<"count-max", <<"{0,", "}">> >>, <<"count-both", <<"{", ",", "}">> >> >>
+CountCtxSeq == << <<"alone", "", "">>, <<"in-alt", "(?:ab|", ")c">> >>
+AtomForm(k, j, x) ==
+  LET at == AtomSeq[k]  sh == CountShapeSeq[j]  cx == CountCtxSeq[x]  ps == sh[2]
+      parts == [q \in 1..Len(ps) |-> U((IF q = 1 THEN cx[2] \o at[2] ELSE "") \o ps[q] \o (IF q = Len(ps) THEN cx[3] ELSE ""))]
+  IN [name |-> sh[1] \o "-" \o at[1] \o "-" \o cx[1], base |-> "dec", fl |-> <<>>, parts |-> parts, rule |-> "count4", atom |-> k, shape |-> j, ctx |-> x]
+AtomForms == {AtomForm(k, j, x) : k \in 1..Len(AtomSeq), j \in 1..Len(CountShapeSeq), x \in 1..Len(CountCtxSeq)}
+AtomLightMags == {"0", "1", "9", "lead0"}
+AtomWindowSeq == <<"1e7", "1e8">>
+AtomMagNames == AtomLightMags \cup {"2^16", "budget+1", "2^31"} \cup {AtomWindowSeq[q] : q \in 1..Len(AtomWindowSeq)}
+\* quick: the light magnitudes with every atom x shape x context; each atom once with a magnitude of the window (0.4 s x 6 channels per
+\* refused construction), shapes, contexts and window magnitudes taken in turn (AtomGridLaw); magnitudes at which the CONVERSION of
+\* the numeral changes behaviour do not depend on the atom (the forms above)
+QuickAtomNum(f, m) == m.name \in AtomLightMags
+                      \/ (f.shape = ((f.atom - 1) % Len(CountShapeSeq)) + 1 /\ f.ctx = ((f.atom - 1) % Len(CountCtxSeq)) + 1
+                          /\ m.name = AtomWindowSeq[(((f.atom - 1) \div 2) % Len(AtomWindowSeq)) + 1])
 RECURSIVE Fill(_, _, _)
 Fill(parts, d, k) == IF k = Len(parts) THEN parts[k] ELSE parts[k] \o d \o Fill(parts, d, k + 1)
 IsDecUnit(u) == u \in 48..57
@@ -97,6 +123,7 @@ HexAtMostMaxCp(d) == LET t == StripZeros(d) IN Len(t) <= 5 \/ (Len(t) = 6 /\ t[1
 NumExpect(f, d) ==
   CASE f.rule = "count5" -> IF IsNumeral(d, IsDecUnit) /\ Sig(d) <= 5 THEN "accept" ELSE "outside"
     [] f.rule = "count2" -> IF IsNumeral(d, IsDecUnit) /\ Sig(d) <= 2 THEN "accept" ELSE "outside"
+    [] f.rule = "count4" -> IF IsNumeral(d, IsDecUnit) /\ Sig(d) <= 4 THEN "accept" ELSE "outside"      \* a body of a few instructions
     [] f.rule = "dec0" -> IF d = <<48>> THEN "accept" ELSE "outside"
     [] f.rule = "backref1" -> IF d \in {<<48>>, <<49>>} THEN "accept" ELSE "outside"
     [] f.rule \in {"cp", "cpclass"} -> IF IsNumeral(d, IsHexUnit) /\ HexAtMostMaxCp(d) THEN "accept" ELSE "reject"
@@ -104,15 +131,26 @@ NumExpect(f, d) ==
     [] f.rule = "hex2" -> IF Len(d) >= 2 /\ AllUnits(d, IsHexUnit) THEN "accept" ELSE "outside"
     [] OTHER -> "outside"
 \* a count the engine refuses as too large costs it half a second per construction (it emits instructions up to its limit)
-HeavyNum(f, m) == f.name \in CountForms /\ NumExpect(f, m.d) = "outside"
+HeavyNum(f, m) == f.rule \in {"count5", "count2", "count4"} /\ NumExpect(f, m.d) = "outside"
 \* quick: every form x every magnitude and shape, except that the refused counts are taken with every magnitude for the plain form
 \* and with the 31- and 64-bit boundaries for the four other count forms, in the try/catch form of the six channels only
-QuickNum(f, m) == ~HeavyNum(f, m) \/ f.name = "count" \/ m.name \in {"2^31", "2^64"}
+\* (a{10^8} is the special quant-huge)
+QuickNum(f, m) == ~HeavyNum(f, m) \/ (f.name = "count" /\ m.name # "1e8") \/ m.name \in {"2^31", "2^64"}
 MagsOf(f) == {m \in (IF f.base = "dec" THEN DecMags ELSE HexMags \cup HexShapes) : ~Quick \/ QuickNum(f, m)}
 NumSpecial(f, m) == [name |-> "num-" \o f.name \o "-" \o m.name, head |-> Fill(f.parts, m.d, 1), unit |-> <<>>, count |-> 0, tail |-> <<>>,
                       expect |-> NumExpect(f, m.d), fl |-> f.fl, numrule |-> f.rule, payload |-> m.d, heavy |-> HeavyNum(f, m),
                       uncaught |-> ~(Quick /\ HeavyNum(f, m))]
-NumSpecials == UNION {{NumSpecial(f, m) : m \in MagsOf(f)} : f \in NumForms}
+AtomMagsOf(f) == {m \in DecMags : m.name \in AtomMagNames /\ (~Quick \/ QuickAtomNum(f, m))}
+NumSpecials == UNION {{NumSpecial(f, m) : m \in MagsOf(f)} : f \in NumForms} \cup UNION {{NumSpecial(f, m) : m \in AtomMagsOf(f)} : f \in AtomForms}
+\* the sub-grid of the quick tier: every atom, every shape, every context and every window magnitude among the refused counts; every
+\* (atom, shape, context) with every light magnitude
+ASSUME AtomGridLaw ==
+  LET heavy == {<<f, m>> \in AtomForms \X DecMags : m \in AtomMagsOf(f) /\ HeavyNum(f, m)}
+  IN /\ \A k \in 1..Len(AtomSeq) : \E h \in heavy : h[1].atom = k
+     /\ \A j \in 1..Len(CountShapeSeq) : \E h \in heavy : h[1].shape = j
+     /\ \A x \in 1..Len(CountCtxSeq) : \E h \in heavy : h[1].ctx = x
+     /\ \A q \in 1..Len(AtomWindowSeq) : \E h \in heavy : h[2].name = AtomWindowSeq[q]
+     /\ \A f \in AtomForms : \A nm \in AtomLightMags : \E m \in AtomMagsOf(f) : m.name = nm
 
 \* ---------------- matching grid -----------------------------------------------------------------
 \* [fam, src, unit, tail]: subject = unit^n \o tail
@@ -165,8 +203,11 @@ RealPollInterval == 100
 \* lens: the subject lengths the configuration is run with
 Deadlines == {60, 20000}                                    \* shorter than one real poll interval; many poll intervals
 PollIntervals == IF Quick THEN {1, RealPollInterval} ELSE {1, 7, RealPollInterval, 1000}
-ApiCfg(iv, d, cap, lens) == [mode |-> "api", interval |-> iv, op |-> "exec", fl |-> <<>>, form |-> "bare", deadline |-> d, cap |-> cap, lens |-> lens]
-ScriptCfg(op, fl, form, d, cap, lens) == [mode |-> "script", interval |-> RealPollInterval, op |-> op, fl |-> U(fl), form |-> form, deadline |-> d, cap |-> cap, lens |-> lens]
+\* arg: how the pattern reaches the entry point - "regexp": a RegExp object R = new RegExp(P, F); "string" / "strobj": the pattern text P
+\* resp. new String(P) given to an entry point that builds the matcher itself (PatArgs below)
+ApiCfg(iv, d, cap, lens) == [mode |-> "api", interval |-> iv, op |-> "exec", fl |-> <<>>, form |-> "bare", deadline |-> d, cap |-> cap, lens |-> lens, arg |-> "regexp"]
+ScriptCfgArg(op, fl, form, d, cap, lens, arg) == [mode |-> "script", interval |-> RealPollInterval, op |-> op, fl |-> U(fl), form |-> form, deadline |-> d, cap |-> cap, lens |-> lens, arg |-> arg]
+ScriptCfg(op, fl, form, d, cap, lens) == ScriptCfgArg(op, fl, form, d, cap, lens, "regexp")
 \* every entry point that runs the matcher on a RegExp object, with the flag that changes how often it runs it
 OpFlags == {<<"test", "">>, <<"test", "g">>, <<"exec", "">>, <<"search", "">>, <<"split", "">>, <<"match", "">>, <<"match", "g">>,
             <<"replace", "">>, <<"replace", "g">>, <<"replaceAll", "g">>}
@@ -184,11 +225,23 @@ OpFamilyNames == IF Quick THEN {"nested-plus", "star-star", "alt-star", "lookahe
 OpLengths == IF Quick THEN {10, 10000} ELSE Lengths
 OpCfgs == {ScriptCfg(o[1], o[2], form, d, "aux", OpLengths) : o \in OpFlags, form \in Forms, d \in {0} \cup Deadlines}
           \ {ScriptCfg("test", "", "bare", d, "aux", OpLengths) : d \in {0} \cup Deadlines}
+\* The pattern ARGUMENT (added after the fourth review).  String.prototype.match and search take any value as the pattern: a RegExp
+\* object is used as it is, anything else goes through ToString and RegExpCreate and the matcher built there runs at once - the same
+\* catastrophic families, the same budgets and the same deadline have to govern that run although no script ever holds the object.
+\* (split / replace / replaceAll with a string search for the text and run no matcher; exec / test exist on RegExp objects only.)
+\* Kinds of non-RegExp argument: a string, a String object (ToString of an object).  x form x deadline; the families and lengths
+\* of the entry-point grid.  quick: a string in both forms, a String object bare (ArgGridLaw).
+StringArgOps == {"match", "search"}
+PatArgs == {"string", "strobj"}
+QuickArg(arg, form) == arg = "string" \/ form = "bare"
+ArgCfgs == {ScriptCfgArg(op, "", g[2], d, "aux", OpLengths, g[1]) : op \in StringArgOps, g \in {h \in PatArgs \X Forms : ~Quick \/ QuickArg(h[1], h[2])}, d \in {0} \cup Deadlines}
+ASSUME ArgGridLaw == /\ \A op \in StringArgOps, arg \in PatArgs, d \in {0} \cup Deadlines : \E c \in ArgCfgs : c.op = op /\ c.arg = arg /\ c.deadline = d
+                     /\ \A op \in StringArgOps, form \in Forms : \E c \in ArgCfgs : c.op = op /\ c.form = form
 \* the loop-lookaround families, quick: package API with the real poll interval and R.test(S), without and with a deadline, every
 \* length (thorough: every configuration, like every other family)
 \* cap "look": 200 000 steps (thorough 2 000 000) - twice the step budget is enough to see one run exceed it
 LookCfgs == {ApiCfg(RealPollInterval, d, "look", Lengths) : d \in {0} \cup Deadlines} \cup {ScriptCfg("test", "", "bare", d, "look", Lengths) : d \in {0} \cup Deadlines}
-RunConfigs(f) == IF Quick /\ f.fam \in LoopLookNames THEN LookCfgs ELSE BaseCfgs \cup (IF f.fam \in OpFamilyNames THEN OpCfgs ELSE {})
+RunConfigs(f) == IF Quick /\ f.fam \in LoopLookNames THEN LookCfgs ELSE BaseCfgs \cup (IF f.fam \in OpFamilyNames THEN OpCfgs \cup ArgCfgs ELSE {})
 
 \* ---------------- case-folding grid (matching under the i flag) -----------------------------------
 \* subject characters whose upper / lower case mapping is several characters or leaves (enters) ASCII:
@@ -303,6 +356,17 @@ StringChannels == {5, 6}             \* "s".match(P), "s".search(P)
 \* work[1] = -1: the compiler's internals could not be observed (not judged; the absolute counting cap and the watchdog remain).
 WorkFactor(plen) == IF plen >= 10000 THEN 1000000000 ELSE 9 * plen * plen
 ConsWorkOK(r) == r.work[1] < 0 \/ r.work[1] \div (r.work[2] + 1) <= WorkFactor(r.plen)
+\* bounded construction MEMORY, by counting: the program under construction grows only through the counted path - work[3] = the
+\* largest length of a compiler's program seen at any counted emission (-1: not observable) never exceeds the number
+\* of instructions counted so far (work[2]), which the counting cap bounds.  A program that is longer than what was emitted one
+\* instruction at a time was produced by something proportional to a number written in the pattern.
+ConsProgOK(r) == Len(r.work) < 3 \/ r.work[3] < 0 \/ r.work[2] < 0 \/ r.work[3] <= r.work[2]
+\* and as the host measures it: work[4] = growth of the process's peak resident set (KB) over the construction through the package
+\* API (-1: not measured).  2 KB per instruction of the largest program the counting cap lets through, i.e. what an implementation
+\* may use that represents an instruction as a small tuple or object ten times over; the count written in the pattern is not in it.
+MemPerInstrKB == 2
+MemBaseKB == 262144
+ConsMemOK(r) == Len(r.work) < 4 \/ r.work[4] < 0 \/ r.work[2] < 0 \/ r.work[4] <= MemBaseKB + MemPerInstrKB * (r.work[2] + r.plen)
 \* as-is (regex/parser.py _parse_unicode_escape): the payload of \u{...} goes through the host's integer-literal conversion
 \* int(text, 16), which also takes blanks around the numeral, a sign, a 0x prefix and single underscores between digits; a value
 \* outside 0..10FFFF is refused.  With the u flag ECMA-262 wants one or more hexadecimal digits and nothing else.
@@ -335,6 +399,8 @@ ConsVerdict(r) ==
                    ELSE IF c \in ConstructorChannels /\ o = "host:RegExpError" THEN "!accept-rejected"
                    ELSE "!")
         ELSE IF c = 1 /\ "work" \in DOMAIN r /\ ~ConsWorkOK(r) THEN "!compile-work"
+        ELSE IF c = 1 /\ "work" \in DOMAIN r /\ ~ConsProgOK(r) THEN "!program-size"
+        ELSE IF c = 1 /\ "work" \in DOMAIN r /\ ~ConsMemOK(r) THEN "!memory"
         \* lexer.py: "/=" is always taken as the divide-assign token, so a literal whose pattern starts with "=" is a syntax error
         ELSE IF c = 2 /\ cls # "reject" /\ "p" \in DOMAIN r /\ r.p # <<>> /\ r.p[1] = 61 /\ RejectOutcome(c, o) THEN "Dev_LiteralSlashAssign"
         ELSE IF cls = "accept" /\ ~AcceptOutcome(o) THEN "!accept-rejected"
